@@ -53,6 +53,35 @@ check(
     'DESIGN 3 (C16), 2.4',
 )
 
+check(
+    'C07',
+    'blocksim',
+    'fault_enumeration',
+    'All 2^(P*K) per-(step, iteration) convergence patterns are enumerated for P<=3,K<=3 (quick) / P<=4,K<=4 (thorough) times 56 '
+    'configurations (1-3 levels, every predictor, both couplings, all_to_done, 1-2 fine sweeps) on the real controller_nonMPI, '
+    'plus seeded samples up to P=8, K=8, 3 blocks with force_done/force_continue flags; nine invariants (no protocol error, '
+    'lock-step at pfasst() entry, finish order, frozen after finish, transfer matching against an independent mailbox model, '
+    'termination within a derived callback bound, callback grammar, all_to_done equal iterations, iteration budget) are checked on every run.',
+    'The convergence verdict is injected by a plug-in convergence controller at order 190 (stub physics: 1-dof test equation); all other '
+    'code is the shipped one. Complete only for the enumerated bounds; beyond them it is sampling. The MPI controller is covered by C08.',
+    'deterministic simulation: exhaustive enumeration of injected convergence histories + seeded sampling on the real serial controller, invariant and grammar checks over the recorded event history',
+    'DESIGN 3 (C07), 2.2',
+)
+
+check(
+    'C06',
+    'blocksim',
+    'exploration',
+    'Seeded histories of the real controller_nonMPI over drawn time axes (binary/decimal/ragged/long/offset/short), P 1..8, 1-3 levels, '
+    'with restart requests and step-size proposals injected at scripted (block, slot) positions; accepted steps are reconstructed from '
+    'pre_step/post_step observations and checked bitwise for chaining, up to rounding for tiling, for the end time, the returned value, '
+    'aliasing of the caller value and (fixed step) the step count against exact rational arithmetic.',
+    'Stub physics (1-dof test equation); restart/step-size decisions come from the script. Sampling, not proof. Known finding F02 '
+    '(sliver step at Tend) is reported as KNOWN-FINDING. ParaDiag controller not simulated; MPI controller covered by C08.',
+    'deterministic simulation: seeded restart/step-size fault histories on the real serial controller, history check of the recorded accepted-step sequence',
+    'DESIGN 3 (C06), 2.2',
+)
+
 
 def build():
     claimed = sorted(CHECKS)
